@@ -161,6 +161,19 @@ def run(chk: Check, ctx: Any) -> None:
                     chk.decide("C11-R3", f"{f.short}:{a}", ok, f,
                                f"{c.func.attr}() (called by compile()) reads self.{a}, which compile() does not assign before the call: on a reused compiler "
                                "object it still holds what the previous compile() left there", f"self.{a} assigned before {c.func.attr}() is called", node=c)
+        # configuration handed to the constructor is shared with the caller and with sub-compilers: never modified in place
+        for a in sorted(config):
+            muts = []
+            for mname, m in cls.methods.items():
+                if mname != "__init__":
+                    muts.extend((mname, x) for x in astq.inplace_mutations(m, a))
+            if muts:
+                mname, x = muts[0]
+                chk.violation("C11-R3", f"{f.short}:config:{a}", f,
+                              f"{mname}() modifies self.{a} in place (`{norm(x)[:70]}`): the constructor argument is kept across compile() calls and handed to "
+                              "sub-compilers, so an earlier compilation (or an earlier import) changes what a later one sees", node=x)
+            else:
+                chk.hold("C11-R3", f"{f.short}:config:{a}", f, f"self.{a} is only read")
         if "ExplorerScript" in f.short:
             chk.floor("C11-R3", f"attributes read in {f.short}", n_attr, 3)
 
